@@ -47,4 +47,15 @@ PublicRoundTrip(vals, out, lgScale, lgN, prec, logprec) ==
     /\ \A i \in 1..Len(vals) : \A c \in 1..2 :
          /\ out[i][c] % Pow2(20 - logprec) = 0
          /\ Abs(out[i][c] - vals[i][c]) <= Tol(vals[i][c], lgScale, lgN, prec) + Pow2(20 - logprec - 1)
+
+\* the product of two encodings (values in sixteenths) decodes to the slot-wise complex product (in 1/256), within 2 units
+ApproxProduct(a, b, out) ==
+    /\ Len(out) = Len(a)
+    /\ \A i \in 1..Len(a) :
+         /\ Abs(out[i][1] - (a[i][1] * b[i][1] - a[i][2] * b[i][2])) <= 2
+         /\ Abs(out[i][2] - (a[i][1] * b[i][2] + a[i][2] * b[i][1])) <= 2
+\* the special FFT and its inverse are mutual inverses (units of 2^-20; float64 or 128-bit arithmetic on at most 2^12 points)
+FFTRoundTrip(vals, out) ==
+    /\ Len(out) = Len(vals)
+    /\ \A i \in 1..Len(vals) : Abs(out[i][1] - vals[i][1]) <= 2 /\ Abs(out[i][2] - vals[i][2]) <= 2
 =============================================================================
